@@ -11,7 +11,10 @@ RULE = ("scripted loopback TCP peers against the real socks5.Scanner.Scan with 4
         "never accepted (full accept queue), rejected address, accept+stall, one byte+stall, one byte+close, close after "
         "/ without reading, reset, one byte+reset, flood, late first/second byte, slow-but-in-time, cancellation before / "
         "during dial / during read / between reads / after the end, dial timeout 0, data timeout <= 0, negative dial "
-        "timeout; non-trivial = the connection was established; distinct by (class, reply bytes, script shape)")
+        "timeout; a concurrent stage: ONE Scanner shared by 64 goroutines (as the scan engine shares it) against 12 peers with "
+        "different answers, 30000 probes each judged on its own (thorough: 400000, a -race build, and a 1200-attempt "
+        "cancel-right-after-connect race sweep); end-to-end runs of the sx binary; "
+        "non-trivial = the connection was established; distinct by (class, reply bytes, script shape)")
 
 SLACK_MS = 60          # scheduling slack granted to a duration (the machine is shared)
 CODES = {1: "outcome class differs from the model", 2: "the peer received other bytes than the model's greeting",
@@ -234,6 +237,65 @@ def corpus_rows(ctx):
     return (rerun(ctx, cases, "corpus") or []) if cases else []
 
 
+CONC_KEY = "concurrent:misreport"
+
+
+def conc_stage(ctx, probes, ms, tag="conc", goroutines=64):
+    """Concurrent stage: ONE real Scanner (built like command/socks.go builds it) shared by 64 goroutines, as
+    scan.GenericEngine shares it between its workers, probing 12 persistent loopback peers with different answers
+    (05 00 x5 incl. one with trailing bytes, 05 02 x2, 05 ff, 05 01, 04 00, 00 05, 00 00).  Every error-free probe is
+    judged on its own by the property: reported iff ITS peer answered 05 00, record = ITS address and port."""
+    ok, _ = ctx.harness_run("c09", ["-out", "%s.jsonl" % tag, "-conc-only", "-conc", probes, "-conc-ms", ms,
+                                    "-conc-g", goroutines, "-seed", ctx.seed], timeout=900)
+    if not ok:
+        return None
+    rows = ctx.read_jsonl(os.path.join(ctx.work, "%s.jsonl" % tag))
+    if not rows:
+        return None
+    rows[0]["bad"] = rows[0].get("bad") or []
+    return rows[0]
+
+
+def judge_conc(r):
+    if r and r["bad"]:
+        b = r["bad"][0]
+        return ("with one Scanner shared by %d goroutines (as the scan engine shares it between its workers) the probe of "
+                "%s:%d is %s (%d misjudged probes among %d)" % (
+                    r["goroutines"], b["ip"], b["port"], b["what"], len(r["bad"]), r["judged"]))
+    return None
+
+
+def report_conc(ctx, r, why):
+    if any(f["key"] == CONC_KEY for f in ctx.findings):
+        return
+    path = ctx.write_replay("concurrent", {
+        "property": "C09", "what": why,
+        "input": {"concurrent": True, "goroutines": r["goroutines"], "timeout_ms": r["timeout_ms"], "seed": r["seed"],
+                  "probes": max(r["probes"], 20000),
+                  "peers": [{"ip": p["ip"], "port": p["port"], "reply": p["reply"]} for p in r["peers"]],
+                  "note": "peers listen on fresh ports at every run; the replay rebuilds the same mix of answers"},
+        "observed": {"probes": r["probes"], "judged": r["judged"], "errors": r["errors"], "misjudged": r["bad"]},
+        "replay_cmd": "bin/check C09 --replay <this file>"})
+    ctx.findings.append({"key": CONC_KEY, "what": why, "replay": path})
+
+
+def run_conc(ctx, probes, ms, tag="conc"):
+    r = conc_stage(ctx, probes, ms, tag)
+    if r:
+        ctx.count("concurrent", ("concurrent", tag), nontrivial=True,
+                  sample={"class": "concurrent", "goroutines": r["goroutines"], "probes": r["probes"], "judged": r["judged"],
+                          "errors": r["errors"], "reported": r["reported"], "misjudged": len(r["bad"]),
+                          "elapsed_ms": r["elapsed_ms"]})
+        ctx.cov["evaluations"] += r["judged"] - 1
+        if r["judged"] < 1000:
+            ctx.broken.append(("correspondence: the concurrent stage judged only %d probes (%d errors)" % (
+                r["judged"], r["errors"]), ""))
+        why = judge_conc(r)
+        if why:
+            report_conc(ctx, r, why)
+    return r
+
+
 RACE_KEY = "cancel-race:late-return"
 
 
@@ -351,6 +413,12 @@ def run(ctx):
         ok, _ = ctx.harness_run("c09", args, timeout=3000)
         if ok:
             rows = corpus_rows(ctx) + ctx.read_jsonl(os.path.join(ctx.work, "cases.jsonl"))
+        # many workers, one Scanner (always; ~1.5 s in quick)
+        run_conc(ctx, 30000 if quick else 400000, 2500 if quick else 25000)
+        if not quick:
+            ctx.harness_race_run("c09", ["-out", "conc_race.jsonl", "-conc-only", "-conc", 20000, "-conc-ms", 15000,
+                                         "-seed", ctx.seed],
+                                 "in socks5.Scanner.Scan when one Scanner is shared by 64 goroutines")
     hard, early = {}, 0
     if model_ok and rows:
         rows, hard, early = settle(ctx, rows, "cases")
@@ -395,6 +463,8 @@ def run(ctx):
             why = judge_race(r)
             if why:
                 report_race(ctx, r, why)
+    if ctx.broken and not ctx.findings and have_bin and quick:
+        run_conc(ctx, 400000, 20000, "conc_search")
     if ctx.broken and not ctx.findings and have_bin:
         # a tie or a proof broke: look harder for a concrete failing input on the real code
         ok, _ = ctx.harness_run("c09", ["-out", "search.jsonl", "-seed", ctx.seed + 17, "-n", 1500, "-sample", 2500],
@@ -423,6 +493,18 @@ def replay(ctx, path):
         return 1
     if not ctx.harness_build("c09"):
         return 1
+    if r["input"].get("concurrent"):
+        for k in range(2):
+            row = conc_stage(ctx, r["input"].get("probes", 30000) * (1 + 4 * k), 5000 * (1 + 2 * k), "conc_replay%d" % k,
+                             r["input"].get("goroutines", 64))
+            why = judge_conc(row)
+            print("replay concurrent stage: %d goroutines, %d probes judged, %d errors, misjudged: %s -> %s" % (
+                row["goroutines"], row["judged"], row["errors"],
+                [(b["ip"], b["port"], b["peer_reply"], "reported" if b["reported"] else "not reported") for b in row["bad"]],
+                why or "property holds on this input"))
+            if why:
+                return 1
+        return 0
     if r["input"].get("race"):
         for k in range(2):
             row = race_sweep(ctx, r["input"].get("attempts", 400), "race_replay%d" % k)
